@@ -81,6 +81,17 @@ def install(np_modules=None, int_modules=None, dm=False, summaries=True):
         install_g_function_summary()
 
 
+def install_dm_state():
+    """density-matrix leg: only the *state* module is instrumented (its `np` and `numpy` globals); gate matrices,
+    projectors and Kraus operators are built by the un-instrumented numeric functions module"""
+    from .arr import NP_PROXY
+
+    m = "graphiq.backends.density_matrix.state"
+    _setglobal(m, "np", NP_PROXY)
+    _setglobal(m, "numpy", NP_PROXY)
+    INSTALLED["np"].append(m)
+
+
 def uninstall():
     while _SAVED:
         mod, name, old, missing = _SAVED.pop()
